@@ -15,7 +15,7 @@ from ..world import real_eval
 
 ID = 'C04'
 LEVEL = 'exploration'
-TIERS = {'quick': 4000, 'thorough': 150000}
+TIERS = {'quick': 12000, 'thorough': 600000}
 RULE = ('seeded chains of 5-30 single-statement evals over persistent host-typed numeric variables (int, long int, bool, '
         'float, Decimal with large exponents / long coefficients) plus a str and a list: r = a op b for + - * / ** and '
         'unary minus, a op= b, c[k] op= b, and the numeric builtins int float round floor ceil abs sum min max; oracle per '
